@@ -59,6 +59,8 @@ type Verifier struct {
 	localNames       map[*Object]string
 	writeLog         map[*Object]bool
 	ringUsed         map[string]bool
+	layerKeys        map[*Contract]string
+	curLayerKey      string
 	steps, maxSteps  int
 	globals          map[*ssa.Global]*Object
 	sentinels        map[*ssa.Global]*Object
@@ -82,7 +84,7 @@ type allowedLoc struct {
 func NewVerifier() *Verifier {
 	return &Verifier{spkgs: map[string]*ssa.Package{}, params: map[string]*FieldParams{}, cfgCache: map[*ssa.Function]*cfgInfo{},
 		contracts: map[string]*Contract{}, usedContracts: map[string]bool{}, assumptions: map[string]bool{}, maxVisits: 5000,
-		hasDefers: map[*ssa.Function]bool{}, specConsts: map[string]*big.Int{}, ringUsed: map[string]bool{}, ringFacts: map[string]bool{}, usedLemmas: map[string]bool{}, methodCache: map[*ssa.Package][]*ssa.Function{}}
+		hasDefers: map[*ssa.Function]bool{}, specConsts: map[string]*big.Int{}, ringUsed: map[string]bool{}, ringFacts: map[string]bool{}, usedLemmas: map[string]bool{}, layerKeys: map[*Contract]string{}, methodCache: map[*ssa.Package][]*ssa.Function{}}
 }
 
 func (v *Verifier) assume(s string) {
@@ -105,7 +107,11 @@ func (v *Verifier) Load(repo string, tags string, patterns ...string) error {
 	v.repo = repo
 	cfg := &packages.Config{Mode: packages.LoadAllSyntax, Dir: repo, Env: append(os.Environ(), "GOFLAGS=-mod=mod", "GOPROXY=off", "GOSUMDB=off", "GOTOOLCHAIN=local")}
 	bt := "verif"
-	if tags != "" {
+	if strings.Contains(tags, "portable") {
+		// every function has a Go body: no amd64/arm64 assembly at any layer (e2_fallback.go etc. are tagged !amd64)
+		cfg.Env = append(cfg.Env, "GOARCH=riscv64", "CGO_ENABLED=0")
+		bt += ",purego"
+	} else if tags != "" {
 		bt += "," + tags
 	}
 	cfg.BuildFlags = []string{"-tags=" + bt}
@@ -151,12 +157,20 @@ func (v *Verifier) funcKey(fn *ssa.Function) string {
 }
 
 func (v *Verifier) lookupContract(fn *ssa.Function) *Contract {
-	c := v.contracts[v.funcKey(fn)]
+	fk := v.funcKey(fn)
+	c := v.contracts[fk]
+	// prefer the contract stated at the current abstraction layer
+	for k, cand := range v.contracts {
+		if strings.HasPrefix(k, fk+"@") && v.layerKeyOf(fn.Pkg, cand) == v.curLayerKey {
+			c = cand
+			break
+		}
+	}
 	if c == nil {
 		return nil
 	}
 	if c.Tags != "any" && c.Tags != "" {
-		isPure := strings.Contains(v.tags, "purego")
+		isPure := strings.Contains(v.tags, "purego") || strings.Contains(v.tags, "portable")
 		if c.Tags == "purego" && !isPure || c.Tags == "default" && isPure {
 			return nil
 		}
@@ -179,12 +193,13 @@ func (v *Verifier) LoadContracts(repo string, pkgPaths ...string) error {
 			for _, c := range cs {
 				key := rel + "." + c.Func
 				if c.Tags != "any" {
-					isPure := strings.Contains(v.tags, "purego")
+					isPure := strings.Contains(v.tags, "purego") || strings.Contains(v.tags, "portable")
 					if c.Tags == "purego" && !isPure || c.Tags == "default" && isPure {
 						continue
 					}
 				}
-				v.contracts[key] = c
+				_ = key
+				v.contracts[contractKey(rel, c)] = c
 			}
 		}
 	}
@@ -872,4 +887,12 @@ func (fr *Frame) runScratch(b, pred *ssa.BasicBlock, st *State, h *ssa.BasicBloc
 	}
 	// Use the normal runner with stop = header. Paths leaving the loop run to the function end, harmlessly.
 	fr.run(b, pred, st, h)
+}
+
+func contractKey(rel string, c *Contract) string {
+	k := rel + "." + c.Func
+	if c.Layer != "" {
+		k += "@" + c.Layer
+	}
+	return k
 }
